@@ -179,23 +179,28 @@ def run_case(ctx, case):
             continue           # missing field: no records to flag
         cval = cset['fields'][n][k]
         f = CS.row_flags(cols[n], k, cval, sem)
-        if f is None and k in ('min', 'max') and isinstance(cval, dict) and cval.get('precision') == 'open' \
-                and isinstance(cval.get('value'), str) and F.FAMILY[cols[n]['kind']] == 'date':
-            # "open" on a date bound: the documentation does not say whether a record ON the bound violates it,
-            # so either reading is accepted - but detection must flag records under the SAME reading that
+        verification_reading = (k in ('min', 'max') and isinstance(cval, dict) and cval.get('precision') == 'open'
+                                and isinstance(cval.get('value'), str) and F.FAMILY[cols[n]['kind']] == 'date') or \
+                               (k == 'allowed_values' and isinstance(cval, list) and F.FAMILY[cols[n]['kind']] in ('int', 'real')
+                                and all(isinstance(x, (int, float)) and not isinstance(x, bool) for x in cval))
+        if f is None and verification_reading:
+            # "open" on a date bound: the documentation does not say whether a record ON the bound violates it;
+            # allowed_values on a numeric field: "currently only used for string fields", yet verified by value.
+            # Either reading is accepted - but detection must flag records under the SAME reading that
             # verification applies on this tree (the property ties detection to verification): a record
             # violates iff the one-record frame holding it fails the constraint under verify_df
             f = []
             try:
                 with contextlib.redirect_stderr(err), contextlib.redirect_stdout(err):
-                    bdt = CS.parse_dt(cval['value'])
+                    bdt = CS.parse_dt(cval['value']) if k != 'allowed_values' else None
                     for val in cols[n]['values']:
                         if val is None:
                             f.append(None)
                             continue
-                        vdt = CS.parse_dt(val)
-                        if vdt[0] == bdt[0] and vdt[1] != bdt[1]:
-                            raise ValueError('sub-microsecond difference from the bound: no reading is documented')
+                        if bdt is not None:
+                            vdt = CS.parse_dt(val)
+                            if vdt[0] == bdt[0] and vdt[1] != bdt[1]:
+                                raise ValueError('sub-microsecond difference from the bound: no reading is documented')
                         one = build({'cols': [dict(cols[n], values=[val])], 'nrows': 1})
                         fc1 = {k: cval}
                         if 'type' in cset['fields'][n]:
